@@ -160,6 +160,16 @@ fn gen_container(r: &mut Rng) -> ContainerCfg {
         }
         mounts.push((s, (*r.pick(&["/data", "/mnt/with space", "/t=1", "/-t", "cache", "./tmp", "workspace/b"])).to_string()));
     }
+    if r.chance(1, 4) {
+        // two mounts nested consistently on both sides (seeded change C17-15)
+        for (s, t) in [("/host/data", "/data"), ("/host/data/cache", "/data/cache")] {
+            if let Some(m) = mounts.iter_mut().find(|(ss, _)| ss == s) {
+                m.1 = t.to_string();
+            } else {
+                mounts.push((s.to_string(), t.to_string()));
+            }
+        }
+    }
     ContainerCfg {
         entrypoint: r.bool().then(|| tricky(r)).filter(|e| !e.is_empty()),
         command: r.bool().then(|| (0..r.usize(4)).map(|_| tricky(r)).collect()),
